@@ -257,6 +257,7 @@ class Interp(object):
         self.steps = 0
         self.cur = None                      # (module, node) being evaluated
         self.call_trace = None               # list to record calls when enabled
+        self.on_return = None                # hook(closure, value): called when an analysed function returns
         self.call_depth = 0
         self.stack = []                      # qualnames of the analysed functions being interpreted
         self.builtins = self._make_builtins()
@@ -510,14 +511,17 @@ class Interp(object):
             if clo.is_generator:
                 return self._gen_driver(clo, fr)
             saved = self.cur
+            rv = None
             try:
                 for _ in self.exec_block(node.body, fr):
                     raise self.err('yield outside generator')
             except _Return as r:
-                return r.value
+                rv = r.value
             finally:
                 self.cur = saved
-            return None
+            if self.on_return is not None:
+                self.on_return(clo, rv)
+            return rv
         finally:
             self.call_depth -= 1
             self.stack.pop()
@@ -1390,7 +1394,22 @@ class Interp(object):
         def b_type(x):
             if isinstance(x, Obj):
                 return I.classref(x.cls)
+            if isinstance(x, (Fr, Poly, Rat)) or hasattr(x, 'is_elem_'):
+                cplx = (isinstance(x, Poly) and not x.is_real()) or getattr(x, 'kind', None) in ('c', 'z')
+                return NumType('c' if cplx else 'f')
+            if isinstance(x, (Unk, Choice)):
+                raise I.err('type() of an undetermined value')
             return type(x)
+
+        def b_hash(x):
+            def walk(v):
+                if isinstance(v, (Arr, list, dict, set)):
+                    raise InterpRaise("unhashable type: '%s'" % ('numpy.ndarray' if isinstance(v, Arr) else type(v).__name__), 'TypeError')
+                if isinstance(v, tuple):
+                    for e in v:
+                        walk(e)
+            walk(x)
+            return hash(repr(x)) & 0xffffffff
 
         def b_callable(x):
             if isinstance(x, Obj):
@@ -1445,7 +1464,7 @@ class Interp(object):
             'reversed': lambda x: reversed(list(I.iterate(x))), 'any': b_any, 'all': b_all,
             'map': lambda f, *its: map(f, *[I.iterate(i) for i in its]),
             'filter': lambda f, it: filter(f, I.iterate(it)), 'round': b_round, 'divmod': b_divmod,
-            'type': b_type, 'object': object, 'repr': repr, 'NotImplemented': NotImplemented,
+            'type': b_type, 'hash': b_hash, 'object': object, 'repr': repr, 'NotImplemented': NotImplemented,
             'True': True, 'False': False, 'None': None, 'complex': b_complex, 'slice': slice,
             'iter': lambda x: I.iterate(x), 'next': next, 'id': id, 'pow': s_pow,
             'property': property, 'staticmethod': staticmethod, 'Ellipsis': Ellipsis,
@@ -1468,12 +1487,51 @@ def _unwrap0(fn):
     return g
 
 
+TYPE_HASH = 0x7c3a91         # every stand-in for a type hashes alike, so a set / dict lookup always reaches __eq__
+
+
+class NumType(object):
+    """type(x) of an abstract number.  The analysis does not tell a python float from a numpy scalar: the type is equal to
+    itself (same value, same type), different from non numeric types, and a comparison with a concrete numeric type
+    cannot be decided (the run ends as undecided instead of guessing)."""
+
+    def __init__(self, kind):
+        self.kind = kind
+        self.__name__ = {'f': 'float', 'c': 'complex'}.get(kind, 'number')
+
+    def __eq__(self, other):
+        if isinstance(other, NumType):
+            return self.kind == other.kind
+        name = getattr(other, '__name__', None) or getattr(other, 'name', '')
+        if other in (int, bool, str, list, tuple, dict, set, frozenset, type(None)) or \
+                name in ('str', 'list', 'tuple', 'dict', 'set', 'NoneType', 'bool', 'bool_', 'ndarray'):
+            return False
+        raise AnalysisError('the exact type of an abstract number (python float or which numpy scalar type) is compared with %r' % (other,))
+
+    def __ne__(self, other):
+        return not self.__eq__(other)
+
+    def __hash__(self):
+        return TYPE_HASH
+
+    def __repr__(self):
+        return "<class of an abstract %s>" % self.__name__
+
+
 class TypeLike(object):
     """A builtin type name: callable (conversion) and usable as the second argument of isinstance."""
 
     def __init__(self, name, conv, pred):
         self.__name__ = name
         self.conv, self.pred = conv, pred
+
+    def __eq__(self, other):
+        if isinstance(other, NumType):
+            return other.__eq__(self)
+        return self is other
+
+    def __hash__(self):
+        return TYPE_HASH
 
     def __call__(self, *a, **k):
         return self.conv(*a, **k)
